@@ -409,6 +409,7 @@ func runC19Seq(ch *core.Chooser, env *Env, out *Outcome) *Outcome {
 	lists := drawLists(ch, hosts, workload.AllKinds, 3, 1, maxLines, 0)
 	drawFaultLists(ch, lists)
 	opKinds := []int{workload.OpDNS, workload.OpDNS, workload.OpDNS, workload.OpMatchAll, workload.OpMatchAll, workload.OpWeb, workload.OpMatch, workload.OpCosmetic}
+	allLines := planLines(lists)
 	var hist []workload.Op
 	pct := []int{70, 85, 93}[ch.Intn("hist.pct", 3)]
 	for i := 0; i < maxOps; i++ {
@@ -420,7 +421,7 @@ func runC19Seq(ch *core.Chooser, env *Env, out *Outcome) *Outcome {
 		if i > 0 && ch.Intn("hist.repeat", 3) == 2 {
 			hist = append(hist, hist[ch.Intn("hist.which", len(hist))])
 		} else {
-			hist = append(hist, workload.GenOp(ch, hosts, opKinds))
+			hist = append(hist, workload.GenOpFor(ch, hosts, opKinds, allLines))
 		}
 		ch.End()
 	}
